@@ -11,6 +11,9 @@ from lib import Case
 BLOCK0 = b"127.100.100."          # placeholder prefix used in stored cases (corpus, replays)
 
 
+NBLOCKS = 100 * 155 - 1      # 127.1XX.YYY. with XX in 00..99 and YYY in 100..254, minus the placeholder
+
+
 def alloc_blocks(n):
     """n fresh /24 prefixes b'127.1XX.1YY.' (fixed width: re-basing a stored case keeps every
     Content-Length valid)."""
@@ -19,23 +22,23 @@ def alloc_blocks(n):
     try:
         fcntl.flock(fd, fcntl.LOCK_EX)
         raw = os.read(fd, 32).decode().strip()
-        cur = int(raw) if raw.isdigit() else (os.getpid() * 7919) % 9999
+        cur = int(raw) if raw.isdigit() else (os.getpid() * 7919) % NBLOCKS
         os.lseek(fd, 0, 0)
         os.ftruncate(fd, 0)
-        os.write(fd, str((cur + n) % 9999).encode())
+        os.write(fd, str((cur + n) % NBLOCKS).encode())
     finally:
         fcntl.flock(fd, fcntl.LOCK_UN)
         os.close(fd)
     res = []
     for i in range(n):
-        v = 1 + (cur + i) % 9999          # 127.100.100. (v = 0) is the placeholder block
-        res.append(b"127.1%02d.1%02d." % (v // 100, v % 100))
+        v = 1 + (cur + i) % NBLOCKS       # 127.100.100. (v = 0) is the placeholder block
+        res.append(b"127.1%02d.%03d." % (v // 155, 100 + v % 155))
     return res
 
 
 def rebase(case, block):
     """move a stored case from the placeholder block to a fresh one"""
-    return Case(case.comp, case.id, [t.replace(BLOCK0, block) for t in case.toks], dict(case.meta))
+    return Case(case.comp, case.id, [t.replace(BLOCK0, block) for t in case.toks], dict(case.meta, block=block.decode()))
 
 
 def placeholder(e):
@@ -62,6 +65,7 @@ class Scenario:
         self.keep_env = keep_env
         self.routes, self.hosts, self.listens = [], [], []
         self.tcp_listeners, self.udp_endpoints, self.events = [], [], []
+        self.waits = []            # (index of the event it precedes, milliseconds of real time)
         self.meta = {}
 
     def ip(self, k):
@@ -105,6 +109,10 @@ class Scenario:
     def ev_badd(self, li, addr):
         self.events.append([b"badd", li, addr])
         return len(self.events) - 1
+
+    def ev_wait(self, ms):
+        """real time passes before the next event (the driver sleeps; the model's clock advances by as much)"""
+        self.waits.append((len(self.events), ms))
 
     def ev_brem(self, li, addr):
         self.events.append([b"brem", li, addr])
@@ -169,6 +177,10 @@ class Scenario:
         t.append(len(self.events))
         for e in self.events:
             t += e
+        if self.waits:
+            t += [b"waits", len(self.waits)]
+            for i, w in self.waits:
+                t += [i, w]
         return t
 
     def case(self, cid, meta=None):
